@@ -239,11 +239,13 @@ def summarise(sc):
 
 
 def candidates(sc):
+    for simpler in fragment.simpler(sc["cuts"]):
+        yield dict(copy.deepcopy(sc), cuts=simpler)
     if sc["cuts"]["m"] == "list":
         for red in shrink.list_reductions(sc["cuts"]["at"]):
-            yield dict(copy.deepcopy(sc), cuts={"m": "list", "at": red} if red else {"m": "whole"})
+            yield dict(copy.deepcopy(sc), cuts=fragment.keep(sc["cuts"], {"m": "list", "at": red} if red else {"m": "whole"}))
     elif sc["cuts"]["m"] == "fixed":
-        yield dict(copy.deepcopy(sc), cuts={"m": "whole"})
+        yield dict(copy.deepcopy(sc), cuts=fragment.keep(sc["cuts"], {"m": "whole"}))
     noise = bytes.fromhex(sc["noise"])
     for red in shrink.bytes_reductions(noise, 200):
         yield dict(copy.deepcopy(sc), noise=red.hex())
